@@ -660,10 +660,12 @@ impl InstrFormat for MsgHooks {
         }
     }
 
-    fn write_instr(&self, f: &mut BinWriter, _: &dyn Emitter, instr: &RawInstr) -> WriteResult {
-        f.write_i16(instr.time as _)?;
-        f.write_u8(instr.opcode as _)?;
-        f.write_u8(instr.args_blob.len() as _)?;  // this version writes argsize rather than instr size
+    fn write_instr(&self, f: &mut BinWriter, emitter: &dyn Emitter, instr: &RawInstr) -> WriteResult {
+        f.write_i16(llir::fit_header_field(emitter, instr, "time", instr.time as i64)?)?;
+        // (the reader sign-extends the opcode byte, so the opcodes that exist are -128..=127 as u16)
+        f.write_u8(llir::fit_header_field::<i8>(emitter, instr, "opcode", instr.opcode as i16 as i64)? as u8)?;
+        // this version writes argsize rather than instr size
+        f.write_u8(llir::fit_header_field(emitter, instr, "argument size", instr.args_blob.len() as i64)?)?;
         f.write_all(&instr.args_blob)?;
         Ok(())
     }
